@@ -27,7 +27,7 @@ def s_dac(draw):
             "sps": draw(st.one_of(st.integers(2, 128), st.sampled_from([2, 3, 4, 5, 7, 8, 15, 16, 17, 127, 128]))),
             "Vout": draw(volt.filter(lambda v: v != 0)), "bias": draw(st.one_of(volt, st.just(0.0), st.just(0))),
             "shape": draw(st.sampled_from(["nrz", "rect", "NRZ", "rz", "RZ"])), "k": draw(st.integers(0, 127)),
-            "nseed": draw(st.integers(0, 2 ** 31 - 1)), "prior": draw(st.booleans())}
+            "nseed": draw(st.integers(0, 2 ** 31 - 1)), "prior": draw(st.booleans()), "R": draw(st.sampled_from([1e9, 1e9, 2.5e9, 1e9 / 3, 0.1, 1e9 / 7, 333.3, 7e9 / 9, 1e10 / 3, 1e6 / 11]))}
 
 
 def e_dac(c):
@@ -44,7 +44,7 @@ def e_dac(c):
             gv(sps=sps0, R=1e9)
             lib(D.DAC, np.random.RandomState(c["nseed"]).randint(0, 2, tot // sps0), 0.25, -1.5, c["shape"])
             prior = "prior-frame-same-size-other-sps"
-    gv(sps=sps, R=1e9)
+    gv(sps=sps, R=c.get("R", 1e9))         # slot rates that are not whole numbers too (fs/R then need not be exactly sps in floating point)
     Vout, bias = c["Vout"], c["bias"]
     arg = container(bits, c["form"])
     g = Guard()
@@ -195,13 +195,13 @@ def s_samp(draw):
     sps = draw(st.integers(1, 64))
     k = draw(st.integers(0, sps - 1))
     return {"sps": sps, "k": k, "n": draw(st.integers(k + 1, k + 1 + 40 * sps)), "seed": draw(st.integers(0, 2 ** 31 - 1)),
-            "noise": draw(st.booleans()), "dt": draw(st.sampled_from(["f", "c", "i"]))}
+            "noise": draw(st.booleans()), "dt": draw(st.sampled_from(["f", "c", "i"])), "R": draw(st.sampled_from([1e9, 1e9, 2.5e9, 1e9 / 3, 0.1, 1e9 / 7, 333.3, 7e9 / 9, 1e10 / 3, 1e6 / 11]))}
 
 
 def e_samp(c):
     reset()
     sps, k = c["sps"], c["k"]
-    gv(sps=sps, R=1e9)
+    gv(sps=sps, R=c.get("R", 1e9))
     rs = np.random.RandomState(c["seed"])
     mkv = (lambda: rs.randint(-9, 10, c["n"])) if c["dt"] == "i" else (lambda: rs.standard_normal(c["n"]) + (1j * rs.standard_normal(c["n"]) if c["dt"] == "c" else 0))
     s, n = mkv(), (mkv() if c["noise"] else None)
